@@ -39,6 +39,7 @@ type fileConfig struct {
 	opts         *CmdEnv
 	callbacks    []ConfigReloadCallback
 	mux          sync.RWMutex
+	reloadMux    sync.Mutex // serializes Reload: compare hashes, swap, call callbacks as one step
 	lastLoadTime time.Time
 	// currentVersion is the version NewConfig was called with; Reload validates
 	// with the same version so that it accepts exactly what startup accepts.
@@ -655,6 +656,11 @@ func NewConfig(opts *CmdEnv, currentVersion ...string) (Config, error) {
 // Reload attempts to reload the configuration; if it has changed, it stores the
 // new data and calls the reload callbacks.
 func (f *fileConfig) Reload(opts ...ReloadedConfigDataOption) error {
+	// Reloads can be triggered concurrently (timer, pubsub, OpAMP); without this
+	// two of them could both see the old hashes and apply the same change twice.
+	f.reloadMux.Lock()
+	defer f.reloadMux.Unlock()
+
 	cData, rData, err := newConfigAndRules(f.opts)
 	if err != nil {
 		return err
